@@ -765,7 +765,7 @@ func RunConcrete(prog *ssa.Program, h *ssa.Function, inputs []InputVal, seed int
 	switch out.kind {
 	case "panic":
 		tr = append(tr, "panic")
-	case "done":
+	case "done", "istop":
 		tr = append(tr, "end")
 	}
 	return tr, out, len(ex.nondets)
